@@ -34,6 +34,9 @@ type crashRun struct {
 	FirstPrim, LastPrim map[int]int
 	CkptDone            []int // event indices of WAL "CHECKPOINT COMMITCOMPLETE" writes
 	Points              []int
+	// l2PrimaryWritten: set by C34 while it judges a second-level crash state in which the interrupted
+	// start-up's replay had already written primary data (KF-02a's window at the second level)
+	l2PrimaryWritten bool
 }
 
 func binDir() string {
